@@ -76,6 +76,10 @@ def exhaustive(tier):
         for method in ("best", "aes", "xor"):
             for n in (1, 15, 16, 17, 31, 32, 33, 47, 48, 49, 63, 64, 65, 100, 257, 1000):
                 yield {"mode": "secret-sweep", "fmt": fmt, "method": method, "n": n}
+    for fmt in ("yaml", "pickle"):
+        for name in PY_VALUES:
+            for slot in ("any", "nested-any", "list-item", "dict-value", "dynamic"):
+                yield {"mode": "python-values", "fmt": fmt, "value": name, "slot": slot}
 
 
 def strategy(tier):
@@ -197,6 +201,63 @@ def _size_sweep(case, R):
         R.nontrivial = n % 16 == 11  # a thin, measured slice counts as non-trivial (sizes around length-byte boundaries)
 
 
+PY_VALUES = ["decimal", "timedelta", "date", "datetime", "ordereddict", "purepath", "complex", "tuple", "set", "frozenset", "bytes", "fraction", "range", "nested"]
+
+
+def _py_value(name):
+    import collections, datetime, decimal, fractions, pathlib
+    return {"decimal": decimal.Decimal("2.50"), "timedelta": datetime.timedelta(minutes=5), "date": datetime.date(2024, 2, 29),
+            "datetime": datetime.datetime(2024, 2, 29, 12, 30, 15), "ordereddict": collections.OrderedDict([("b", 1), ("a", 2)]),
+            "purepath": pathlib.PurePosixPath("/etc/app.d"), "complex": 1 + 2j, "tuple": (1, "a"), "set": {1, 2}, "frozenset": frozenset([1, 2]),
+            "bytes": b"\x00\xff", "fraction": fractions.Fraction(1, 3), "range": range(3),
+            "nested": {"when": [datetime.timedelta(seconds=1), decimal.Decimal("0.1")], "pair": (1, (2, 3))}}[name]
+
+
+def _python_values_case(case, R):
+    """The formats that carry arbitrary Python objects (pickle, and YAML through its Python tags): whatever a save accepts in
+    an untyped slot, the file it wrote loads back equal."""
+    cc = sandbox._state["cc"]
+    fmt, name, slot = case["fmt"], case["value"], case["slot"]
+    R.label("python-values:" + fmt)
+    value = _py_value(name)
+    schema = cc.Schema(dynamic=True)
+    schema.label = cc.StringField(default="svc")
+    schema.free = cc.AnyField()
+    schema.items = cc.ListField()
+    schema.table = cc.DictField()
+    schema.sub.free = cc.AnyField()
+    with sandbox.CaseDir() as d:
+        cfg = schema(key_filename=os.path.join(d, "key"))
+        if slot == "any":
+            cfg.free = value
+        elif slot == "nested-any":
+            cfg.sub.free = value
+        elif slot == "list-item":
+            cfg.items = [1, value]
+        elif slot == "dict-value":
+            cfg.table = {"k": value}
+        else:
+            cfg.extra = value
+        read = {"any": lambda c: c.free, "nested-any": lambda c: c.sub.free, "list-item": lambda c: list(c.items), "dict-value": lambda c: dict(c.table),
+                "dynamic": lambda c: c.extra}[slot]
+        want = read(cfg)
+        dest = os.path.join(d, "py." + fmt)
+        try:
+            cfg.save(dest, fmt)
+        except Exception:
+            R.label("python-values:save-refused")
+            return
+        R.nontrivial = True
+        try:
+            fresh = schema(key_filename=os.path.join(d, "key"))
+            fresh.load(dest, fmt)
+            got, err = read(fresh), None
+        except Exception as exc:
+            got, err = None, exc
+        R.check(err is None and got == want and type(got) is type(want), "loads-back", "python-values:%s:%s" % (fmt, name),
+                lambda: "a %s value in an untyped slot (%s) was saved as %s; the file loads back as %r (%s)" % (name, slot, fmt, got, "raised %r" % (err,) if err else "want %r" % (want,)))
+
+
 def _secret_sweep(case, R):
     cc = sandbox._state["cc"]
     fmt, method, n = case["fmt"], case["method"], case["n"]
@@ -238,6 +299,8 @@ def run_case(case, R):
         return _size_sweep(case, R)
     if case.get("mode") == "secret-sweep":
         return _secret_sweep(case, R)
+    if case.get("mode") == "python-values":
+        return _python_values_case(case, R)
     cc = sandbox._state["cc"]
     spec = case["spec"]
     fmt = case["fmt"]
